@@ -137,6 +137,9 @@ def attribute(f):
     if spec_refused and (rules - {"Result"}):
         props.add("C17")        # a call that had to be refused had side effects
         props.add("C12")
+    if f["logged"]["res"] == "refused" and (rules - {"Result"}):
+        props.add("C17")        # the implementation refused, yet something changed
+        props.add("C12")
     return props
 
 
@@ -333,10 +336,17 @@ def run(prop, tier, seed, replay=None):
                 os.makedirs(pdir)
                 out = os.path.join(work, "t%d.ndjson" % i)
                 parts.append(out)
+                prof = PROFILE[prop]
+                if prop == "C11" and i % 2 == 1:
+                    prof = "shapes"         # uniform sample of chain shapes x checkpoint positions
                 cmd = [os.path.join(BUILD, "replicadrv"), "-out", out, "-work", pdir,
                        "-gen", str(per), "-len", str(length), "-seed", str(seed * 1000 + i),
-                       "-base", str(i * 1000), "-profile", PROFILE[prop]]
+                       "-base", str(i * 1000), "-profile", prof]
                 mine = sims[i::nproc]
+                if i == 0:      # hand-written sequences (name reuse, multi-owner writes, revert + collision)
+                    for line in open(os.path.join(VERIF, "scenarios", "replica_directed.ndjson")):
+                        if line.strip():
+                            mine = mine + [json.loads(line)]
                 if mine:
                     scf = os.path.join(work, "s%d.ndjson" % i)
                     with open(scf, "w") as f:
